@@ -8,7 +8,7 @@
 //! programs of C10 through every pass.
 
 use crate::c10;
-use crate::c11::{gen_program, show_blk, PProject};
+use crate::c11::{gen_program, gen_program32, show_blk, PProject};
 use crate::core::*;
 use crate::irb::{project_from_json, project_to_json, show_program};
 use crate::typing;
@@ -20,12 +20,12 @@ use std::collections::BTreeMap;
 pub fn info() -> CheckInfo {
     CheckInfo {
         id: "C12",
-        rule: "workload 'pcode': random well-sized P-Code programs (1-3 functions, 2-10 blocks, nested/same-name/16-byte sub-registers, temporaries reused with several sizes, RAM operands, float and integer mnemonics, stack prologues incl. alignment masks, all jump mnemonics, shared and missing jump targets, extern symbols with register/stack arguments) serialized to the extractor's JSON, parsed and lifted by parse_pcode_project_to_ir_project, then normalize_basic and every optimisation pass (alone, in pipeline order, and normalize_optimize as a whole); workload 'ir': the basic-normalized IR programs of C10 through every pass. After each stage the size walk of typing.rs runs over every Def, Jmp condition/target expression, extern-symbol argument and calling-convention expression; an inconsistency that is not present in the stage's input is a violation. non-trivial = the walk covered at least one sub-register-derived PIECE/SUBPIECE expression (pcode) or the stage changed the program (ir); distinct = hash of the program",
+        rule: "workload 'pcode': random well-sized P-Code programs (three quarters over an x86-64 register table with 8-byte pointers, one quarter over a 32-bit x86 table with 4-byte pointers and stack arguments; 1-3 functions, 2-10 blocks, nested/same-name/16-byte sub-registers, temporaries reused with several sizes, RAM operands, float and integer mnemonics, stack prologues incl. alignment masks, all jump mnemonics, shared and missing jump targets, extern symbols with register/stack arguments) serialized to the extractor's JSON, parsed and lifted by parse_pcode_project_to_ir_project, then normalize_basic and every optimisation pass (alone, in pipeline order, and normalize_optimize as a whole); workload 'ir': the basic-normalized IR programs of C10 through every pass. After each stage the size walk of typing.rs runs over every Def, Jmp condition/target expression, extern-symbol argument and calling-convention expression; an inconsistency that is not present in the stage's input is a violation. non-trivial = the walk covered at least one sub-register-derived PIECE/SUBPIECE expression (pcode) or the stage changed the program (ir); distinct = hash of the program",
         assumptions: &[
             "typing.rs is a correct transcription of the P-Code size rules; reported only: unequal operand sizes of same-size operations (integer, float, boolean, comparisons), SUBPIECE low+size beyond its operand or size 0, extension to a smaller size, assignment value size != variable size, load/store address size != pointer size (= size of the stack pointer register)",
             "typing.rs also demands 1-byte operands of BOOL_* / a 1-byte branch condition / non-zero variable, cast and constant sizes; the statement does not, so these messages are filtered out (counted under 'beyond-statement:*')",
             "indirect jump/call/return targets need not be pointer-sized (not in the statement); their sub-expressions are still walked",
-            "generated P-Code is well-sized (C11's generator; LOAD/STORE addresses are 8 bytes); the IR programs of C10 are asserted well-sized before use, otherwise the case is inconclusive",
+            "generated P-Code is well-sized (C11's generator; LOAD/STORE addresses have the pointer size of the target); the IR programs of C10 are asserted well-sized before use, otherwise the case is inconclusive",
         ],
         run,
         replay,
@@ -301,7 +301,12 @@ fn run(cfg: &Cfg) -> Report {
                 }
             } else {
                 let floats = idx % 2 == 0;
-                let prog = gen_program(rng, floats);
+                // every fourth program of these shards is built for a 32-bit target (pointer size 4)
+                let bits32 = i % 4 == 3;
+                let prog = if bits32 { gen_program32(rng, floats) } else { gen_program(rng, floats) };
+                if bits32 {
+                    rep.obs("workload:pcode:32-bit-target");
+                }
                 let text = serde_json::to_string(&prog).unwrap();
                 check_pcode_program(&text, rep);
                 rep.obs("workload:pcode");
